@@ -459,9 +459,11 @@ class timestamp( object ):
 
         """
         try:
-            terms		= str( s ).translate( cls._timeseps ).split()
-            if not terms[-1].isdigit(): # Hmm; Last term isn't digits; must be a timezone.
+            terms		= str( s ).split()
+            if not terms[-1].translate( cls._timeseps ).replace( ' ', '' ).isdigit():
+                # Hmm; Last term isn't digits; must be a timezone (its name may contain - or :)
                 terms,tzinfo	= terms[:-1],terms[-1]
+            terms		= ' '.join( terms ).translate( cls._timeseps ).split()
             is_dst		= None
             if tzinfo is None:
                 tzinfo		= cls.UTC
